@@ -60,16 +60,21 @@ def run_trial(msgs, order, ids, nu=None, light=False):
         except Exception as e:
             adds.append({"id": i, "done": [], "obs": [], "err": "incomplete_tasks_" + type(e).__name__})
             break
-        for t in retained:
-            r = t.root()
-            if t.is_complete():
-                why = "retained_task_is_complete"
-            obs[uid[r.task_uuid] - 1] = tree(r)
-        dn = []
-        for t in done:
-            if not t.is_complete():
-                why = "returned_task_not_complete"
-            dn.append(uid[t.root().task_uuid])
+        try:
+            for t in retained:
+                r = t.root()
+                if t.is_complete():
+                    why = "retained_task_is_complete"
+                obs[uid[r.task_uuid] - 1] = tree(r)
+            dn = []
+            for t in done:
+                if not t.is_complete():
+                    why = "returned_task_not_complete"
+                dn.append(uid[t.root().task_uuid])
+        except Exception as e:
+            # a task the parser holds cannot even be asked for its root / rendered: an observation, not a harness failure
+            adds.append({"id": i, "done": [], "obs": [], "err": "task_unreadable_" + type(e).__name__})
+            break
         adds.append({"id": i, "done": dn, "obs": obs, "err": "", "why": why})
     try:
         incomplete = [uid[t.root().task_uuid] for t in parser.incomplete_tasks()]
